@@ -481,7 +481,7 @@ theorem delay_edge_marked (ts : TopoSortFn) (g : Flat) (hu : g.UniqueEdgeIds) (r
     apply hen (e.src, e.dst) _ hsame
     unfold Flat.enemyPairs Flat.barrierPairs
     simp only [List.mem_filter, List.mem_append, List.mem_filterMap, bne_iff_ne, ne_eq]
-    refine ⟨Or.inl (Or.inl ⟨e, he, ?_⟩), hne⟩
+    refine ⟨Or.inl (Or.inl (Or.inl ⟨e, he, ?_⟩)), hne⟩
     simp [Flat.isTick, hd]
   refine ⟨hmem, ?_⟩
   obtain ⟨st, _, _, _, hdel⟩ := aux_ok_shape ts g hu r h
@@ -501,25 +501,34 @@ theorem delay_edge_marked (ts : TopoSortFn) (g : Flat) (hu : g.UniqueEdgeIds) (r
     subst this
     simp [hd]
 
-/-- **Barrier, access-order and handoff→borrower pairs are in different groups**: the two ends of a delayed
-    edge (other than a self-edge), members of consecutive access groups of one handoff, and a referenced
-    handoff node and its borrower never share a subgraph. -/
+/-- **Barrier, access-order, handoff→borrower and borrower→consumer pairs are in different groups**: the two
+    ends of a delayed edge (other than a self-edge), members of consecutive access groups of one handoff, a
+    referenced handoff node and its borrower, and a borrower and a pipe consumer of the borrowed handoff never
+    share a subgraph. -/
 theorem barrier_pairs_cross (ts : TopoSortFn) (g : Flat) (r : PResult) (h : partitionWith ts g = .ok r) :
     (∀ p ∈ g.barrierPairs, p.1 ≠ p.2 → SM.findIn r.rep p.1 ≠ SM.findIn r.rep p.2) ∧
     (∀ p ∈ g.accessPairs, p.1 ≠ p.2 → SM.findIn r.rep p.1 ≠ SM.findIn r.rep p.2) ∧
     (∀ ref ∈ g.refs, ∀ t, ref.target = some t → t ≠ ref.node →
-      SM.findIn r.rep t ≠ SM.findIn r.rep ref.node) := by
+      SM.findIn r.rep t ≠ SM.findIn r.rep ref.node) ∧
+    (∀ ref ∈ g.refs, ∀ t, ref.target = some t → g.isHoff t = true → ∀ c ∈ g.consumers t, ref.node ≠ c →
+      SM.findIn r.rep ref.node ≠ SM.findIn r.rep c) := by
   have hen := enemies_separated_holds ts g r h
-  refine ⟨fun p hp hne => hen p ?_, fun p hp hne => hen p ?_, fun ref hr t ht hne => hen (t, ref.node) ?_⟩
+  refine ⟨fun p hp hne => hen p ?_, fun p hp hne => hen p ?_, fun ref hr t ht hne => hen (t, ref.node) ?_,
+    fun ref hr t ht hh c hc hne => hen (ref.node, c) ?_⟩
   · unfold Flat.enemyPairs
     simp only [List.mem_filter, List.mem_append, bne_iff_ne, ne_eq]
-    exact ⟨Or.inl (Or.inl hp), hne⟩
+    exact ⟨Or.inl (Or.inl (Or.inl hp)), hne⟩
   · unfold Flat.enemyPairs
     simp only [List.mem_filter, List.mem_append, bne_iff_ne, ne_eq]
-    exact ⟨Or.inl (Or.inr hp), hne⟩
+    exact ⟨Or.inl (Or.inl (Or.inr hp)), hne⟩
   · unfold Flat.enemyPairs
     simp only [List.mem_filter, List.mem_append, List.mem_filterMap, bne_iff_ne, ne_eq]
-    exact ⟨Or.inr ⟨ref, hr, by simp [ht]⟩, hne⟩
+    exact ⟨Or.inl (Or.inr ⟨ref, hr, by simp [ht]⟩), hne⟩
+  · unfold Flat.enemyPairs Flat.borrowerConsumerPairs
+    simp only [List.mem_filter, List.mem_append, List.mem_flatMap, bne_iff_ne, ne_eq]
+    refine ⟨Or.inr ⟨ref, hr, ?_⟩, hne⟩
+    simp only [ht, hh, if_true, List.mem_map]
+    exact ⟨c, hc, rfl⟩
 
 /-- full statement: along every emitted subgraph the final colours read Pull* Comp? Push* -/
 def PullThenPushStatement (ts : TopoSortFn) : Prop :=
